@@ -143,6 +143,35 @@ def laws(md, toks, acc):
             ps = n.previous_sibling
             if ps is not None and ps.next_sibling is not n:
                 return "previous_sibling.next_sibling is not the node"
+    # the same laws for every top-level block taken alone (create_root=False: the node *is* the block)
+    i = 0
+    n = len(toks)
+    while i < n:
+        j = i
+        if toks[i].nesting == 1:
+            depth = 0
+            while j < n:
+                depth += toks[j].nesting
+                if depth == 0:
+                    break
+                j += 1
+        if j >= n:
+            break
+        sl = toks[i:j + 1]
+        try:
+            node = SyntaxTreeNode(sl, create_root=False)
+        except RecursionError:
+            node = None
+        except Exception as e:
+            return f"SyntaxTreeNode(block, create_root=False) raises {type(e).__name__}"
+        if node is not None:
+            bk = node.to_tokens()
+            if len(bk) != len(sl) or any(a is not b for a, b in zip(bk, sl)):
+                return "to_tokens() of a single-block tree (create_root=False) is not the identical token sequence"
+            want = sl[0].type[:-5] if sl[0].nesting == 1 else sl[0].type
+            if node.type != want or node.is_root:
+                return f"a single-block tree (create_root=False) reports type {node.type!r}, is_root={node.is_root}"
+        i = j + 1
     # repeatable rendering
     d1 = [t.as_dict() for t in toks]
     h2 = md.renderer.render(toks, md.options, env)
